@@ -1049,8 +1049,8 @@ fn plan(tier: verif_common::Tier) -> (Vec<Case>, Vec<Value>) {
         let union: Vec<Assign> = tied.iter().chain(lists.iter()).copied().collect::<BTreeSet<_>>().into_iter().collect();
         let dense: [Assign; 2] = [[7; NK], [3; NK]];
         s("main/targets x profiles{dev,prod} (tied; pmode=env-valid, dmode=rel-cwd-default)", &tied, &[PName::Dev, PName::Prod], &[EnvValid], &[RelCwdDefault], &TARGETS, FMode::All);
-        s("main/pmodes x targets (tied; profile=prod, dmode=rel-parent-default)", &tied, &[PName::Prod], &PMODES_OK, &[RelParentDefault], &TARGETS, FMode::All);
-        s("main/dmodes x pmodes{explicit,env-valid} (tied; profile=dev, target=required)", &tied, &[PName::Dev], &[Explicit, EnvValid], &DMODES, &[Target::Required], FMode::All);
+        s("main/pmodes x targets{option,deny-unknown,probe} (tied; profile=prod, dmode=rel-parent-default)", &tied, &[PName::Prod], &PMODES_OK, &[RelParentDefault], &[Target::Option, Target::DenyUnknown, Target::ProbeProfileField], FMode::All);
+        s("main/dmodes (tied; profile=dev, pmode=explicit, target=required)", &tied, &[PName::Dev], &[Explicit], &DMODES, &[Target::Required], FMode::All);
         s("main/dmodes (tied; profile=prod, pmode=explicit-env-other, target=deny-unknown)", &tied, &[PName::Prod], &[ExplicitEnvOther], &DMODES, &[Target::DenyUnknown], FMode::All);
         s("lists (l x b.m 8x8 x 3 scalar configurations) x profiles{dev,prod.eu} x pmodes{env-valid,explicit} x dmodes{rel-cwd-default,absolute} x targets{option,required}", &lists, &[PName::Dev, PName::ProdEu], &[EnvValid, Explicit], &[RelCwdDefault, Absolute], &[Target::Option, Target::Required], FMode::All);
         s("dotted profiles{prod.eu,prod.us} x pmodes{env-valid,explicit} (tied; dmode=rel-cwd-default, target=option)", &tied, &dotted, &[EnvValid, Explicit], &[RelCwdDefault], &[Target::Option], FMode::All);
